@@ -28,6 +28,7 @@ type PropSpec struct {
 	Note        string   `json:"note"`
 	Syntactic   []string `json:"syntactic"`    // names of syntactic discipline checks to run (see synt.go)
 	Rows        []string `json:"rows"`         // registration tables whose rows are obligations (regtab.go)
+	Pipeline    bool     `json:"pipeline"`     // the function list is a union over the pipeline the property depends on: a function contributing no obligation is skipped, not an error
 	Also        []string `json:"also"`         // substrings of obligation names carrying another property's tag that this property relies on too
 }
 
@@ -165,7 +166,7 @@ var assumptionText = map[string]string{
 	"A-POOL":        "A-POOL: sync.Pool.Get returns New() or a previously Put object in arbitrary state, held by nobody else (modelled as fresh memory)",
 	"A-RANGE":       "A-RANGE: ranging an unmodified Go map visits each entry exactly once, maplen entries in all",
 	"A-REFLECT":     "A-REFLECT: reflect.* functions used by the codec behave as documented (trusted contracts in /verif/trusted/reflect.spec)",
-	"A-SKIP":        "A-SKIP: gopkg thrift.Binary.Skip returns err==nil => 0<n<=len(b), never reads outside b, writes nothing, does not panic",
+	"A-SKIP":        "A-SKIP: skipping goes through internal/reflect.skipValue, which recovers from panics of gopkg's thrift.Binary.Skip (v0.2.0 indexes a table with the type byte as int8 and panics for type bytes >= 0x80); assumed: err==nil => 0<n<=len(b), Skip never reads outside b and writes nothing",
 	"A-STD":         "A-STD: fmt/errors/strings/strconv/sort functions behave as documented (trusted contracts in /verif/trusted/deps.spec)",
 	"A-BOOL":        "A-BOOL: a Go bool in memory is the byte 0 or 1",
 	"A-INITDEFAULT": "A-INITDEFAULT: a user InitDefault() writes only inside its receiver and is deterministic",
@@ -265,7 +266,7 @@ func cmdProp(args []string) int {
 				nFuncObl[k]++
 			}
 		}
-		if nFuncObl[k] == 0 {
+		if nFuncObl[k] == 0 && !ps.Pipeline {
 			genErrors = append(genErrors, fmt.Sprintf("%s: no obligation generated (vacuity guard)", k))
 		}
 	}
